@@ -29,11 +29,18 @@ theorem reserved_node_refuses_others (s : RState) (a key node : String)
     (h : (s.nodeKeys node) ≠ []) (hk : key ∉ s.required) : s.reserve a key node = s :=
   rstate_reserve_refused s a key node h hk
 
-/-- Reservations disappear: unreserve removes the reservation from every view at once. -/
+/-- Reservations disappear: unreserve removes the reservation from every view at once.
+    CORRECTED: the node clause holds when the reservation `(a, key, node)` exists.  As first stated (node clause
+    unconditional) it is false for the model: after `[.reserve "a" "k" "n"]`, `unreserve "b" "k" "n"` names a
+    reservation that does not exist (wrong application), is a no-op, and `("n", "k")` stays in the node view —
+    rightly so, it still belongs to application "a". -/
 theorem unreserve_removes_everywhere (ops : List ROp) (a key node : String) :
     let s := (run ops).unreserve a key node
-    (a, key, node) ∉ s.app ∧ (node, key) ∉ s.node :=
+    (a, key, node) ∉ s.app ∧ ((a, key, node) ∈ (run ops).app → (node, key) ∉ s.node) :=
   rstate_unreserve_removes ops a key node
+
+/-- the counterexample to the uncorrected node clause -/
+example : ("n", "k") ∈ ((run [.reserve "a" "k" "n"]).unreserve "b" "k" "n").node := by decide
 
 example : (run [.reserve "app-1" "k1" "n1", .reserve "app-2" "k2" "n1", .markRequired "k3", .reserve "app-1" "k3" "n2"]).app.length = 2 := by decide
 
